@@ -317,10 +317,22 @@ impl Facts {
         frames.push(Vec::new());
     }
 
-    /// Commit (discard) the top-most undo frame
+    /// Commit the top-most undo frame.
+    ///
+    /// When an enclosing frame exists, the committed entries are handed to it
+    /// (first recorded value per key wins) so that rolling back the enclosing
+    /// frame still restores keys that were only changed inside the inner frame.
     pub fn commit_undo_frame(&self) {
         let mut frames = self.undo_frames.write().unwrap();
-        frames.pop();
+        if let Some(frame) = frames.pop() {
+            if let Some(parent) = frames.last_mut() {
+                for entry in frame {
+                    if !parent.iter().any(|e: &UndoEntry| e.key == entry.key) {
+                        parent.push(entry);
+                    }
+                }
+            }
+        }
     }
 
     /// Rollback the top-most undo frame, restoring prior values
